@@ -4,6 +4,7 @@ from __future__ import annotations
 import itertools
 import math
 import types
+from fractions import Fraction
 
 import numpy as np
 import z3
@@ -14,7 +15,7 @@ from tempest.student import fit_mvstud
 from vf.engine.core import PathCtx
 from vf.engine.harness import Obligation
 from vf.engine.real import SymReal
-from vf.engine.arr import NpProxy, patched, sarr, solve_small, SymArray
+from vf.engine.arr import NpProxy, patched, sarr, solve_small, pinv_small, SymArray
 from vf.engine.util import real, eq, le, lt, scalar
 from vf.props.mcmc_common import exp_as_uf
 
@@ -104,7 +105,23 @@ def run_fit(ctx, data, tag):
         return info["nu"]
     opt = types.SimpleNamespace(bisect=bisect)
     spec = types.SimpleNamespace(psi=lambda v: 0.0)
-    la = types.SimpleNamespace(solve=solve, LinAlgError=np.linalg.LinAlgError)
+    def note_delta(A, X, B):
+        B_ = np.asarray(B, dtype=object)
+        delta = [sum([B_[i][t] * X[i][t] for i in range(1, B_.shape[0])], B_[0][t] * X[0][t]) for t in range(B_.shape[1])]
+        info["delta"] = delta
+        info["Sigma0"] = np.asarray(A, dtype=object)
+        info["nu"], info["flag"], info["flag_lo"] = nu_for(delta)
+
+    class Pinv:
+        """result of linalg.pinv: remembers the matrix so that `pinv(S) @ diffs` can register the Mahalanobis distances"""
+        def __init__(self, A, **kw):
+            self.A, self.P = A, pinv_small(A, **kw)
+
+        def __matmul__(self, B):
+            X = self.P @ np.asarray(B, dtype=object)
+            note_delta(self.A, X, B)
+            return X
+    la = types.SimpleNamespace(solve=solve, pinv=lambda A, *a, **kw: Pinv(A, **kw), LinAlgError=np.linalg.LinAlgError)
     proxy = NpProxy(overrides={"cov": cov_model, "linalg": la, "log": lambda v: AbstractF(info["flag"], info.get("flag_lo"))})
     from vf.engine.core import DomainError
     try:
@@ -119,8 +136,17 @@ def make_equivariance(n, d, kind):
     """kind: 'affine' (per-coordinate scale a != 0 and shift b) or 'permute' (coordinate permutation, d == 2)."""
 
     def harness(ctx: PathCtx):
-        x = [[real(ctx, f"x{i}_{j}") for j in range(d)] for i in range(n)]
-        if kind == "affine":
+        if kind == "scale-concrete":
+            # concrete data, one symbolic per-coordinate scale over the whole range of the property: conditioning questions inside the
+            # code (pseudo-inverse cut-offs, regularisation thresholds) then have a single real unknown
+            pts = [(0, 0), (1, 0), (0, 1), (3, 2), (1, 4), (2, 2)][:n]
+            x = [[SymReal.const(Fraction(c)) for c in p_[:d]] for p_ in pts]
+            sc = real(ctx, "s", lo=1, hi=10 ** 6)
+            a = [1 / sc] * (d - 1) + [sc]  # the two ends of the range [1e-6, 1e6] on different coordinates
+            b = [SymReal.const(0)] * d
+            y = [[a[j] * x[i][j] for j in range(d)] for i in range(n)]
+            perm = list(range(d))
+        elif kind == "affine":
             a = [real(ctx, f"a{j}") for j in range(d)]
             b = [real(ctx, f"b{j}") for j in range(d)]
             for v in a:
@@ -150,7 +176,12 @@ def make_equivariance(n, d, kind):
     def replay(m, label, v):
         rng = np.random.RandomState(0)
         x = rng.standard_t(2, size=(200, d)) * 0.1 + 0.5  # heavy tails: the nu update stays finite
-        if kind == "affine":
+        if kind in ("affine", "scale-concrete"):
+            if kind == "scale-concrete":
+                m = dict(m)
+                m.update({f"a{j}": 1.0 / float(m.get("s", 2.0)) for j in range(d - 1)})
+                m[f"a{d - 1}"] = float(m.get("s", 2.0))
+                m.update({f"b{j}": 0.0 for j in range(d)})
             a = np.array([float(m.get(f"a{j}", 2.0)) for j in range(d)])
             a = np.where(np.abs(a) < 1e-3, 2.0, a)
             b = np.array([float(m.get(f"b{j}", 0.3)) for j in range(d)])
@@ -158,7 +189,7 @@ def make_equivariance(n, d, kind):
             # the property quantifies over scalings in [1e-6, 1e6]: also try the ends of that range
             scalings = [np.full(d, sc) for sc in (1e-6, 1e-4, 1e4, 1e6)]
             if d > 1:
-                scalings += [np.array([1e-3, 1e3][:d]), np.array([1e4, 1.0][:d])]  # per-coordinate (anisotropic) scalings
+                scalings += [np.array([1e-3, 1e3][:d]), np.array([1e4, 1.0][:d]), np.array([1e-6, 1e6][:d]), np.array([1.0, 1e-6][:d]), np.array([1e6, 1.0][:d])]  # per-coordinate (anisotropic) scalings
             for aa in scalings:
                 sc = aa.tolist()
                 p1, q1, r1 = fit_mvstud(x)
@@ -199,9 +230,10 @@ def make_equivariance(n, d, kind):
 
     return Obligation(f"equivariance-{kind}-n{n}-d{d}", harness, replay=replay, encodes=[fit_mvstud],
                       bounds=f"n={n} symbolic points, d={d}, initialisation + one ECME iteration (max_iter=1), symbolic per-coordinate scale/shift" if kind == "affine"
-                      else f"n={n} symbolic points, d=2, coordinate swap",
+                      else (f"n={n} concrete points, d={d}, scales (1/s, .., s) with symbolic s in [1, 1e6], initialisation + one ECME iteration" if kind == "scale-concrete"
+                            else f"n={n} symbolic points, d=2, coordinate swap"),
                       stubs=["nu update (optimize.bisect/special.psi/np.log score) -> nondeterministic nu > 0 or inf, identical for runs whose Mahalanobis distances are proved equal",
-                             "np.cov -> unbiased covariance model", "np.linalg.solve -> closed form (d<=2)"],
+                             "np.cov -> unbiased covariance model", "np.linalg.solve -> closed form (d<=2)", "np.linalg.pinv -> eigenvalue cut-off model (d<=2)"],
                       theory="QF_NRA", timeout_ms=30000, max_paths=2000,
                       allow_domain="degenerate data (singular initial scale matrix) is outside the claim")
 
@@ -422,7 +454,7 @@ def make_fallback():
 
 
 def obligations(tier):
-    obs = [make_fallback(), make_dof_decision(4, 1), make_dof_decision(4, 2), make_init_equivariance(3, 1), make_init_equivariance(2, 2), make_equivariance(3, 1, "affine"), make_wellposed(3, 1), make_equivariance(2, 2, "permute"), make_equivariance(2, 2, "affine")]
+    obs = [make_fallback(), make_dof_decision(4, 1), make_dof_decision(4, 2), make_equivariance(4, 2, "scale-concrete"), make_init_equivariance(3, 1), make_init_equivariance(2, 2), make_equivariance(3, 1, "affine"), make_wellposed(3, 1), make_equivariance(2, 2, "permute"), make_equivariance(2, 2, "affine")]
     if tier == "thorough":
         # (n=4 one-iteration obligations - affine d=1, permutation d=2, well-posedness d=1 - exhaust the 2400 s budget or end in nlsat
         #  `unknown`: not scheduled; the initialisation obligations below cover n=4 / n=3,d=2)
